@@ -57,6 +57,20 @@ def compare(acc, case, args, u):
         acc.viol(case, args, observed={"twin": "same object, second reading", "diff": [[n, a, b] for n, a, b in d][:8]}, expected="identical observations",
                  msg="%s%r: reading the accessors a second time gives different results: %r" % (case, tuple(args)[:3], d[:4]))
         return False
+    if any(v[0] == "exc" for n_, v in o if n_ not in ("origin", "relative", "parent", "__bytes__")):
+        # something raised: that is where a half-finished derivation can leave traces.  Every accessor is read once more, ALONE,
+        # on its own fresh twin - its value must not depend on which accessors were read before it.
+        from vlib.observe import _plan, _val
+        names = [n for n, _ in o]
+        for idx, name in enumerate(names):
+            t = pickle.loads(pickle.dumps(u))
+            alone = _val(_plan(t)[idx][1])
+            if alone != o[idx][1]:
+                acc.viol(case, args, observed={"twin": "accessor %s read alone on a fresh twin" % name, "diff": [[name, list(o[idx][1]), list(alone)]]},
+                         expected="identical observations",
+                         msg="%s%r: %s is %r in a full observation but %r when it is the first thing read on a fresh twin" % (
+                             case, tuple(args)[:3], name, o[idx][1], alone))
+                return False
     for kind, t in twins(u) + [("pickle, accessors read in reverse order", pickle.loads(pickle.dumps(u)))]:
         ot = observe(t, reverse=kind.endswith("reverse order"))
         d = diff(o, ot)
